@@ -18,6 +18,7 @@ A forward pass that raises (also without any requires_grad) or whose VALUE is ou
 business (C01..C06 own it): such cases are counted (`forward_failed`, `forward_mismatch`), never reported.
 """
 import contextlib
+import copy
 import json
 import math
 import os
@@ -306,6 +307,158 @@ def _mark_leaves(draw, rs, allow_exp=True):
     return mode
 
 
+# ---- aliased leaves: ONE tensor object in several slots ------------------------------------------------------------------
+# A literal carrying "tie": g is materialised as the SAME tensor object as every other literal of group g with identical
+# content (see _tied_materialise); the reference differentiates w.r.t. that one leaf through the dense model (total derivative).
+MAT_KINDS = {("Dense", "t"), ("Minimal", "t"), ("Tri", "t")}
+TIE_KINDS = MAT_KINDS | {("Diag", "d"), ("ConstantDiag", "c"), ("ConstantMul", "c"), ("Toeplitz", "c")}
+PAIR_KEYS = {"Kernel": ("x1", "x2"), "KeOps": ("x1", "x2"), "Interpolated": ("lv", "rv")}
+ALIAS_HEADS = ["Kronecker", "Kronecker", "Kronecker", "Cat", "Cat", "Kernel", "Kernel", "KeOps", "Interpolated", "Sum", "Matmul", "Mul",
+               "KroneckerDiag", "KroneckerTri", "PsdSum", "SumKronecker", "KroneckerAddedDiag"]
+
+
+SIBLING_COPY = ("Kronecker", "KroneckerDiag", "KroneckerTri", "Sum", "PsdSum", "Mul", "Cat", "Matmul")
+ALIAS_CLASSES = ["Dense", "Diag", "ConstantDiag", "Toeplitz", "Kronecker", "Sum", "Cat", "Matmul", "Mul", "Kernel", "Interpolated", "ConstantMul",
+                 "AddedDiag", "BlockDiag", "Masked", "TriT", "KroneckerTri", "KroneckerDiag", "SumBatch", "Root"]
+
+
+def _lit_preds(op, key, v):
+    """The domain predicates (gen.py domains: any / psd / pd / tril / triu / '+') that the VALUES of a literal satisfy.  A
+    literal may take over the values of another one iff it keeps every predicate it satisfied before: whatever domain its node
+    was generated for is a conjunction of these predicates, so the recipe stays in its domain by construction."""
+    t = L.value(v, torch.float64)
+    P = set()
+    if (op, key) in MAT_KINDS:
+        if t.dim() >= 2 and t.shape[-1] == t.shape[-2] and t.numel():
+            if bool((t == t.mT).all()):
+                w = torch.linalg.eigvalsh(t)
+                top = max(1.0, float(w.abs().max()))
+                if float(w.min()) >= -1e-9 * top:
+                    P.add("psd")
+                if float(w.min()) >= 0.5:
+                    P.add("pd")
+            if bool((t.triu(1) == 0).all()):
+                P.add("tril")
+            if bool((t.tril(-1) == 0).all()):
+                P.add("triu")
+            if bool((t.diagonal(dim1=-2, dim2=-1) >= 0.5).all()):
+                P.add("posdiag")
+    elif (op, key) == ("Toeplitz", "c"):
+        if t.numel():
+            s_ = t[..., 1:].abs().sum(-1)
+            if bool((t[..., 0] >= 2.0 * s_).all()):
+                P.add("psd")
+            if bool((t[..., 0] >= 2.0 * s_ + 0.5).all()):
+                P.add("pd")
+    else:
+        if bool((t >= 0).all()):
+            P.add("nonneg")
+        if bool((t > 0).all()):
+            P.add("pos")
+    return P
+
+
+def _tie_options(rs):
+    """('same', a, b): two literals of ONE node that already hold the same values (x1 / x2 of a symmetric kernel matrix k(X, X),
+    left / right values of a symmetric interpolation) or may hold them (equal shapes in a node generated for the domain 'any');
+    ('copy', src, dst): two literals of the same kind and shape anywhere in the recipes where dst may take src's values."""
+    lits = _all_literals(rs)
+    opts = []
+    for node in (n for x in rs for n in R.walk(x)):
+        ks = PAIR_KEYS.get(node["op"])
+        if ks and all(L.is_lit(node.get(k)) for k in ks):
+            a, b = node[ks[0]], node[ks[1]]
+            if "tie" in a or "tie" in b or a["dt"] != b["dt"] or L.shape_of(a) != L.shape_of(b):
+                continue
+            if node["op"] == "Interpolated" and json.dumps(node["li"]["lit"]) == json.dumps(node["ri"]["lit"]) and not _same_lit(a, b):
+                continue
+            opts.append(("same", a, b))
+    # ('sub', node, i, j): argument j of a node whose arguments share one domain (later ones at most a weaker one: gen.py mk_kron /
+    # mk_sum / mk_mul / mk_cat / mk_matmul) becomes a copy of the earlier argument i of the same matrix shape: K = A (x) A, A + A, [A | A]
+    for node in (n for x in rs for n in R.walk(x)):
+        if node["op"] not in SIBLING_COPY or any("tie" in v for _, _, v in _all_literals(node["args"])):
+            continue
+        shapes = [refmodel.shape(a) for a in node["args"]]
+        for i in range(len(shapes)):
+            for j in range(i + 1, len(shapes)):
+                same = shapes[i] == shapes[j] if node["op"] in ("Cat", "Matmul") else shapes[i][-2:] == shapes[j][-2:]
+                if same and _all_literals([node["args"][i]]) and json.dumps(node["args"][i]) != json.dumps(node["args"][j]):
+                    opts.append(("sub", node, (i, j)))
+    cand = [(node, k, v) for node, k, v in lits if (node["op"], k) in TIE_KINDS]
+    preds = {}
+    for i, (n1, k1, v1) in enumerate(cand):
+        for n2, k2, v2 in cand[i + 1:]:
+            if v1 is v2 or v1["dt"] != v2["dt"] or L.shape_of(v1) != L.shape_of(v2) or "exp" in v1 or "exp" in v2:
+                continue
+            if not ((n1["op"], k1) == (n2["op"], k2) or ((n1["op"], k1) in MAT_KINDS and (n2["op"], k2) in MAT_KINDS)):
+                continue
+            for (na, ka, va), (nb, kb, vb) in (((n1, k1, v1), (n2, k2, v2)), ((n2, k2, v2), (n1, k1, v1))):
+                if "tie" in vb:
+                    continue
+                for nn, kk, vv in ((na, ka, va), (nb, kb, vb)):
+                    if id(vv) not in preds:
+                        preds[id(vv)] = _lit_preds(nn["op"], kk, vv)
+                if preds[id(va)] >= preds[id(vb)]:
+                    opts.append(("copy", va, vb))
+                    break
+    return opts
+
+
+def _tie_leaves(draw, rs):
+    """Tie one (sometimes two) pairs of literals (in place).  Returns the number of ties made."""
+    made = 0
+    for rnd in range(2):
+        opts = _tie_options(rs)
+        if not opts or (rnd == 1 and draw(st.integers(0, 2)) != 0):
+            break
+        kind, a, b = opts[draw(st.integers(0, len(opts) - 1))]
+        nxt = 1 + max([v.get("tie", 0) for _, _, v in _all_literals(rs)] + [0])
+        if kind == "sub":
+            node, (i, j) = a, b
+            node["args"][j] = copy.deepcopy(node["args"][i])
+            for (_, _, va), (_, _, vb) in zip(_all_literals([node["args"][i]]), _all_literals([node["args"][j]])):
+                va["tie"] = vb["tie"] = nxt
+                nxt += 1
+        else:
+            if "tie" not in a:
+                a["tie"] = nxt
+            b["lit"] = copy.deepcopy(a["lit"])
+            b["tie"] = a["tie"]
+        made += 1
+    return made
+
+
+def _harmonise_ties(draw, rs):
+    """After the requires-grad / layout / expansion decisions: the members of a tie group are one tensor -- one set of flags."""
+    groups = {}
+    for _, _, v in _all_literals(rs):
+        if "tie" in v:
+            groups.setdefault(v["tie"], []).append(v)
+    for g in sorted(groups):
+        first = groups[g][0]
+        if draw(st.integers(0, 4)) != 0:
+            first["rg"] = True
+        for m in groups[g][1:]:
+            for key in ("lit", "rg", "lay", "exp"):
+                if key in first:
+                    m[key] = copy.deepcopy(first[key])
+                else:
+                    m.pop(key, None)
+
+
+def _tie_groups(recs):
+    """Groups (>= 2 members with identical content) of tied float literals: {group id: [literal, ...]}."""
+    groups = {}
+    for _, _, v in _all_literals(recs):
+        if "tie" in v:
+            groups.setdefault((v["tie"], _tie_content(v)), []).append(v)
+    return {k: vs for k, vs in groups.items() if len(vs) >= 2}
+
+
+def _tie_content(v):
+    return json.dumps({k: v[k] for k in sorted(v) if k != "tie"}, sort_keys=True)
+
+
 def _ones(shape):
     if not shape:
         return 1.0
@@ -382,17 +535,35 @@ def cases(draw, tier):
         # nestings among the classes with hand-written derivative code only
         head = draw(st.sampled_from(custom))
         classes = [nm for nm in FOCUS if nm not in ex]
+    # aliased leaves (one tensor object in several slots of the operator tree): requested for 1/3 of the cases, with a head
+    # class / size / batch that makes two literals of the same kind and shape likely; made whenever the recipe admits it
+    want_alias = ep != "bilinear" and draw(st.integers(0, 2)) == 0
+    alias_head = want_alias and draw(st.integers(0, 3)) != 0
+    if alias_head:
+        classes = [nm for nm in ALIAS_CLASSES if nm not in ex] if draw(st.integers(0, 2)) else None
+        if not pdonly and draw(st.integers(0, 2)) == 0:
+            dom = "psd"  # (symmetric kernel matrices k(X, X) / symmetric interpolations exist in this domain only)
     # (the body of gen.recipes, with sizes chosen so that the requested head class is applicable: Kronecker forms need n = 4)
     cfg = gen.Cfg(dt="f64", max_dim=5, exclude=ex, classes=classes)
     batch = draw(st.sampled_from(gen.BATCHES[:-1]))
-    n = draw(st.integers(1, 5))
-    if head in KRON_HEADS and draw(st.integers(0, 3)):
+    if want_alias and draw(st.booleans()):
+        batch = ()  # (a batched Kronecker constructor expands its factors into distinct tensors)
+    # three batch dimensions (only here: cost) for the right-hand sides with FEWER batch dimensions and an interior size-1 dim
+    deep = ep in ("matmul", "op_add") and not want_alias and draw(st.integers(0, 5)) == 0
+    if deep:
+        batch = draw(st.sampled_from([(2, 3, 2), (2, 2, 2), (3, 2, 2), (2, 2, 3)]))
+    n = draw(st.integers(1, 3 if deep else 5))
+    if (head in KRON_HEADS or (alias_head and draw(st.booleans()))) and draw(st.integers(0, 3)) and not deep:
         n = 4
     if dom == "any" and not square:
         m = n if draw(st.integers(0, 2)) else draw(st.integers(1, 5))
     else:
         m = n
-    depth = draw(st.sampled_from([1, 2, 2, 3, 3]))
+    depth = draw(st.sampled_from([1, 2, 2] if deep else [1, 2, 2, 3, 3]))
+    if alias_head:
+        cand = [nm for nm in ALIAS_HEADS if nm in gen._applicable(cfg, dom, m, n, batch, max(depth, 2))]
+        if cand:
+            head = draw(st.sampled_from(cand))
     if head is not None and head in gen._applicable(cfg, dom, m, n, batch, max(depth, 2)):
         r = gen.call_maker(head, draw, cfg, dom, m, n, batch, max(depth, 2))
     else:
@@ -426,7 +597,10 @@ def cases(draw, tier):
                         node["base"] = gen.gen(draw, cfg2, "any", k, k, tuple(bshp[:-2]), draw(st.integers(1, 2)))
                         for key in ("li", "ri"):
                             node[key]["lit"] = gen._map2(node[key]["lit"], lambda v: v % k)
+    n_ties = _tie_leaves(draw, rs) if want_alias else 0
     case["rg_mode"] = _mark_leaves(draw, rs, allow_exp="no_expanded_leaves" not in trig)
+    if n_ties:
+        _harmonise_ties(draw, rs)
     if "singular_kronecker_factor_symeig" in trig or "symeig_negative_rounded_eigenvalue" in trig:
         # avoid exactly the trigger: the singular PSD sub-matrix F is replaced by the (positive definite) dense matrix F + I
         found = _singular_kron_factors(rs) if "singular_kronecker_factor_symeig" in trig else _neg_rounded_kron_factors(rs)
@@ -445,16 +619,28 @@ def cases(draw, tier):
     case["exp_leaf"] = draw(st.sampled_from(["base", "base", "view"]))
     # right / left operands
     if ep in NEEDS_RHS:
-        allow_vec = len(batch) == 0
+        # (a 1-D right-hand side against a BATCHED operator: open finding F-C07-matmul-vector-rhs-batched-operator for the
+        #  products; avoided exactly there while it is open)
+        allow_vec = len(batch) == 0 or not (ep in ("matmul", "op_add", "op_mul") and "matmul_vector_rhs_batched_operator" in trig)
         kinds = ["matrix", "matrix", "batched"]
         if ep in ("matmul", "op_add", "op_mul", "solve", "sqrt_inv_matmul"):
             kinds += ["broadcast_more", "broadcast_fewer", "size1"]
+            if any(x == 1 for x in batch):
+                kinds.append("broadcast_wider")
         if allow_vec and ep not in ("sqrt_inv_matmul_lhs", "solve_left"):
             kinds.append("vector")
         kind = draw(st.sampled_from(kinds))
+        if deep and draw(st.integers(0, 3)):
+            kind = "fewer_inner1"
         c = draw(st.integers(1, 3))
         if kind == "vector":
             rshape = (n,)
+        elif kind == "fewer_inner1":
+            # fewer batch dimensions than the operator AND a size-1 dim behind a larger one: (b1, 1) against (b0, b1, b2)
+            rshape = (batch[1], 1, n, c)
+        elif kind == "broadcast_wider":
+            # more batch dimensions than the operator and LARGER than the operator at its size-1 batch dims
+            rshape = draw(st.sampled_from([(2,), (1,)])) + tuple(x if x > 1 else draw(st.integers(2, 3)) for x in batch) + (n, c)
         elif kind == "matrix":
             rshape = (n, c)
         elif kind == "batched":
@@ -468,7 +654,9 @@ def cases(draw, tier):
         if ep in ("inv_quad", "inv_quad_logdet") and kind == "matrix":
             rshape = batch + (n, c)
         case["rhs_kind"] = kind
-        case["rhs"] = _flit(draw, rshape)
+        case["rhs"] = _flit(draw, rshape, rg=True if kind in ("fewer_inner1", "broadcast_wider") else None)
+        if "matmul_rhs_fewer_dims_inner_singleton" in trig and ep in MATMUL_EPS and _rhs_fold_scrambles(batch, rshape):
+            case["rhs"].pop("rg", None)  # open finding: avoid exactly the trigger (the rhs gradient is not requested)
     if ep in NEEDS_LHS:
         p = draw(st.integers(1, 3))
         if ep == "rmatmul":
@@ -494,9 +682,10 @@ def cases(draw, tier):
         case["reduce"] = draw(st.sampled_from([True, True, False]))
     if ep == "bilinear":
         D = draw(st.integers(1, 3))
-        uv = draw(st.sampled_from(["same", "same", "more", "v_fewer"] if batch else ["same", "same", "more"]))
-        ub = {"same": batch, "more": (2,) + batch, "v_fewer": batch}[uv]
-        vb = {"same": batch, "more": (2,) + batch, "v_fewer": ()}[uv]
+        uv = draw(st.sampled_from(["same", "same", "more", "v_fewer"] + (["wider"] if any(x == 1 for x in batch) else []) if batch else ["same", "same", "more"]))
+        wide = (2,) + tuple(x if x > 1 else draw(st.integers(2, 3)) for x in batch)
+        ub = {"same": batch, "more": (2,) + batch, "v_fewer": batch, "wider": wide}[uv]
+        vb = {"same": batch, "more": (2,) + batch, "v_fewer": (), "wider": wide}[uv]
         case["uv"] = uv
         case["U"] = _flit(draw, ub + (m, D), rg=False)
         case["V"] = _flit(draw, vb + (n, D), rg=False)
@@ -507,6 +696,9 @@ def cases(draw, tier):
         if "lanczos_diagonalization" in trig and _has_kron_added_diag(r):
             del cell["max_cholesky_size"]
     case["cell"] = cell
+    if "toeplitz_derivative_wider_vectors" in trig:
+        for node in _toeplitz_wider_nodes(case):
+            node["c"].pop("rg", None)  # open finding: avoid exactly the trigger (that column's gradient is not requested)
     return case
 
 
@@ -541,15 +733,48 @@ def _base_leaf_expansions(enabled):
         L.materialise = orig
 
 
+@contextlib.contextmanager
+def _tied_materialise(enabled, aliases):
+    """While active, float literals of one tie group ("tie": g, identical content) are materialised ONCE: every further member
+    receives the very same tensor object (the caller passing one parameter tensor to several constructors / slots).  The first
+    member is registered as the leaf; the others are recorded in `aliases` as (literal, leaf or None)."""
+    inner = L.materialise
+    if not enabled:
+        yield
+        return
+    memo = {}
+
+    def mat(l, registry=None):
+        if "tie" not in l or l["dt"] not in ("f64", "f32"):
+            return inner(l, registry)
+        key = (l["tie"], _tie_content(l))
+        if key in memo:
+            t, leaf = memo[key]
+            aliases.append((l, leaf))
+            return t
+        n0 = len(registry) if registry is not None else 0
+        t = inner(l, registry)
+        leaf = registry[-1][1] if registry is not None and len(registry) > n0 else None
+        memo[key] = (t, leaf)
+        return t
+
+    L.materialise = mat
+    try:
+        yield
+    finally:
+        L.materialise = inner
+
+
 class Built:
     pass
 
 
-def _build(case, with_grad=True):
+def _build(case, with_grad=True, tie=True):
     b = Built()
     ctx = R.BuildCtx()
     c = case if with_grad else _strip_rg(case)
-    with _base_leaf_expansions(c.get("exp_leaf", "base") == "base"):
+    b.aliases = []
+    with _base_leaf_expansions(c.get("exp_leaf", "base") == "base"), _tied_materialise(tie, b.aliases):
         b.op = R.build(c["recipe"], ctx)
         b.op2 = R.build(c["recipe2"], ctx) if "recipe2" in c else None
         b.t = {}
@@ -560,6 +785,15 @@ def _build(case, with_grad=True):
     b.tensors = list(ctx.tensors)
     b.case = c
     return b
+
+
+def _leafmap(b):
+    """id(literal) -> leaf tensor, for the reference model; the literals of a tie group all map to their one shared leaf."""
+    m = {id(l): t for l, t in b.leaves}
+    for l, leaf in b.aliases:
+        if leaf is not None:
+            m[id(l)] = leaf
+    return m
 
 
 def _strip_rg(obj):
@@ -951,10 +1185,15 @@ def _scales(b, hooks, G_hooks, g_ref, lossmag):
     S = []
     abs_leaves = []
     amap = {}
+    by_leaf = {}
     for l, t in b.leaves:
         a = t.detach().abs().clone().requires_grad_(True)
         abs_leaves.append(a)
         amap[id(l)] = a
+        by_leaf[id(t)] = a
+    for l, leaf in b.aliases:
+        if leaf is not None and id(leaf) in by_leaf:
+            amap[id(l)] = by_leaf[id(leaf)]
     try:
         total = 0.0
         for (rec, _), G in zip(hooks, G_hooks):
@@ -1062,9 +1301,24 @@ def check(case):
     if subbatch:
         labels.append("subbatch_leaf")
     nontrivial = nondense_rg and (any_exp or subbatch or 0 < n_rg < len(lits) or depth >= 2)
+    # aliased leaves: one tensor object in several slots
+    tgroups = _tie_groups(recs) if ep != "bilinear" else {}
+    lit_pos = {id(v): i for i, (_, _, v) in enumerate(lits)}
+    alias_key = sorted(sorted(lit_pos[id(v)] for v in vs) for vs in tgroups.values())
+    alias_rg = any(_has_rg(vs[0]) for vs in tgroups.values())
+    if tgroups:
+        labels.append("alias:tied")
+        labels.append("alias:tied_rg" if alias_rg else "alias:tied_no_grad")
+        labels.append("alias:slots:%d" % max(len(vs) for vs in tgroups.values()))
+        names_of = {id(v): "%s.%s" % (node["op"], k) for node, k, v in lits}
+        labels += sorted({"alias:kind:" + "+".join(sorted({names_of[id(v)] for v in vs})) for vs in tgroups.values()})
+        labels += sorted({"alias:in:" + node["op"] for node in (n_ for x in recs for n_ in R.walk(x)) if sum(1 for ch in R.children(node) for _, _, v in _all_literals([ch]) if "tie" in v) >= 2 or sum(1 for _, v in _node_literals(node) if "tie" in v) >= 2})
+    else:
+        labels.append("alias:none")
+    nontrivial = nontrivial or alias_rg
     info = {
         "nontrivial": False,
-        "key": {"cp": [R.class_path(x) for x in recs], "ep": ep, "rg": [bool(_has_rg(v)) for _, _, v in lits], "exp": [("exp" in v) for _, _, v in lits],
+        "key": {"cp": [R.class_path(x) for x in recs], "ep": ep, "rg": [bool(_has_rg(v)) for _, _, v in lits], "exp": [("exp" in v) for _, _, v in lits], "alias": alias_key,
                 "cell": case["cell"], "rhs": L.shape_of(case["rhs"]) if "rhs" in case else None, "lhs": L.shape_of(case["lhs"]) if "lhs" in case else None,
                 "idx": case.get("index_kind"), "dim": case.get("dim"), "uv": case.get("uv")},
         "labels": labels,
@@ -1098,7 +1352,7 @@ def check(case):
         fail("grad", "exc:" + X.describe(e), "the forward pass raised %r only when tensors require grad" % (e,))
 
     # ---- reference ---------------------------------------------------------------------------------------------------------
-    leafmap = {id(l): t for l, t in b.leaves}
+    leafmap = _leafmap(b)
     try:
         A = refmodel.dense(r, leafmap)
         A2 = refmodel.dense(case["recipe2"], leafmap) if "recipe2" in case else None
@@ -1198,9 +1452,18 @@ def check(case):
     symlits, ties = _sym_structure(case)
     trimask = _tri_masks(recs)
     pos = {id(l): i for i, (l, _) in enumerate(b.leaves)}
+    leaf_pos = {id(t): i for i, (_, t) in enumerate(b.leaves)}
+    members = {i: [l] for i, (l, _) in enumerate(b.leaves)}  # leaf index -> every literal materialised as that leaf
+    for l, leaf in b.aliases:
+        if leaf is not None and id(leaf) in leaf_pos:
+            pos[id(l)] = leaf_pos[id(leaf)]
+            members[leaf_pos[id(leaf)]].append(l)
     groups, skip = [], set()
     for a_, b_ in ties:
-        if a_ in pos and b_ in pos:
+        if a_ in pos and b_ in pos and pos[a_] == pos[b_]:
+            # both members of the symmetric pair ARE one tensor (k(X, X)): its gradient is the total derivative, a symmetric perturbation
+            labels.append("tie_shared_leaf")
+        elif a_ in pos and b_ in pos:
             groups.append((pos[a_], pos[b_]))
             skip.update((pos[a_], pos[b_]))
         elif a_ in pos or b_ in pos:
@@ -1224,9 +1487,12 @@ def check(case):
         items += [((i, j), (gl[i] - reflist[i]) + (gl[j] - reflist[j]), S[i] + S[j]) for i, j in groups if gl[i].shape == gl[j].shape]
         for idx, d, s in items:
             l = b.leaves[idx[0]][0]
-            if id(l) in trimask and d.dim() >= 2:
-                d = d.triu() if trimask[id(l)] else d.tril()
-            if id(l) in symlits and d.dim() >= 2 and d.shape[-1] == d.shape[-2]:
+            # (a shared leaf inherits the restrictions of EVERY slot it occupies: the unobservable parts add up in its total gradient)
+            ups = {trimask[id(m)] for m in members[idx[0]] if id(m) in trimask}
+            if ups and d.dim() >= 2:
+                for up in ups:
+                    d = d.triu() if up else d.tril()
+            if any(id(m) in symlits for m in members[idx[0]]) and d.dim() >= 2 and d.shape[-1] == d.shape[-2]:
                 d = 0.5 * (d + d.mT)
                 s = 0.5 * (s + s.mT)
             if not d.numel():
@@ -1260,6 +1526,8 @@ def check(case):
         if o.numel() and not bool(((o.detach() - o2.detach()).abs() <= C_MEMEFF * U64 * (o.detach().abs() + o.detach().abs().max())).all()):
             fail("memeff", "fwd_value", "forward values differ between memory_efficient settings")
     info["nontrivial"] = bool(nontrivial and n_rg > 0)
+    if tgroups:
+        labels.append("alias:compared_rg" if alias_rg else "alias:compared_no_grad")
     if n_rg == 0:
         labels.append("only_rhs_grad")
     return done("compared")
@@ -1296,7 +1564,7 @@ def _check_bilinear(case, info, done, fail, nontrivial):
     labels = info["labels"]
     labels.append("uv:" + case["uv"])
     try:
-        b = _build(case)
+        b = _build(case, tie=False)  # (per-slot oracle: every position of representation() is its own argument)
         op = b.op
         rep = op.representation()
         tree = op.representation_tree()
@@ -1584,7 +1852,73 @@ def _symeig_root_repeated(case):
     return False
 
 
+MATMUL_EPS = ("matmul", "op_add", "op_mul")  # entry points that multiply through functions/_matmul.py with the CALLER's right-hand side
+
+
+def _rhs_fold_scrambles(op_batch, rshape):
+    """Matmul.backward folds the broadcast rhs gradient with  rhs_grad.reshape(-1, *rhs.shape).sum(0)  whenever it has more
+    dimensions than the rhs: that is the sum over the broadcast dimensions only if every batch dim of the rhs that was
+    broadcast (size 1 against > 1) lies in FRONT of all its larger dims -- not for (b1, 1) against (b0, b1, b2)."""
+    if len(rshape) < 2:
+        return False
+    rb = tuple(rshape[:-2])
+    try:
+        full = tuple(torch.broadcast_shapes(tuple(op_batch), rb))
+    except RuntimeError:
+        return False
+    if len(full) <= len(rb):
+        return False
+    big = False
+    for r_, f_ in zip(rb, full[len(full) - len(rb):]):
+        if r_ == 1 and f_ > 1 and big:
+            return True
+        big = big or r_ > 1
+    return False
+
+
+def _matmul_rhs_fold(case):
+    if case["ep"] not in MATMUL_EPS or "rhs" not in case or not case["rhs"].get("rg"):
+        return False
+    return _rhs_fold_scrambles(refmodel.shape(case["recipe"])[:-2], L.shape_of(case["rhs"]))
+
+
+def _matmul_vector_batched(case):
+    return case["ep"] in MATMUL_EPS and "rhs" in case and len(L.shape_of(case["rhs"])) == 1 and len(refmodel.shape(case["recipe"])) > 2
+
+
+def _toeplitz_wider_nodes(case, only_rg=True):
+    """Toeplitz nodes whose column has a size-1 batch dim BEHIND a larger one while the vectors of the derivative can carry more
+    batch dimensions than the column (some node of the tree, or an operand, has a batch of higher rank):
+    ToeplitzLinearOperator._bilinear_derivative folds with  res.view(-1, *column.shape).sum(0)  -- the same pattern."""
+    recs = [case["recipe"]] + ([case["recipe2"]] if "recipe2" in case else [])
+    rank = 0
+    for x in recs:
+        for n in R.walk(x):
+            try:
+                rank = max(rank, len(refmodel.shape(n)) - 2)
+            except Exception:
+                pass
+    for k in ("rhs", "lhs", "U", "V"):
+        if k in case:
+            rank = max(rank, len(L.shape_of(case[k])) - 2)
+    found = []
+    for x in recs:
+        for n in R.walk(x):
+            if n["op"] == "Toeplitz" and (n["c"].get("rg") or not only_rg):
+                cb = tuple(L.shape_of(n["c"])[:-1])
+                big, inner1 = False, False
+                for d_ in cb:
+                    inner1 = inner1 or (d_ == 1 and big)
+                    big = big or d_ > 1
+                if inner1 and rank > len(cb):
+                    found.append(n)
+    return found
+
+
 TRIGGERS = {
+    "matmul_rhs_fewer_dims_inner_singleton": _matmul_rhs_fold,
+    "matmul_vector_rhs_batched_operator": _matmul_vector_batched,
+    "toeplitz_derivative_wider_vectors": lambda case: bool(_toeplitz_wider_nodes(case)),
     "symeig_root_repeated_eigenvalues": _symeig_root_repeated,
     "lanczos_diagonalization": lambda case: case["cell"].get("max_cholesky_size") == 0 and _has_kron_added_diag(case["recipe"]),
     "singular_kronecker_factor_symeig": lambda case: bool(_singular_kron_factors([case["recipe"]] + ([case["recipe2"]] if "recipe2" in case else []))),
